@@ -1577,7 +1577,13 @@ def run(env: Env) -> Outcome:
                 "(builtin, importable custom, local, nested, multi-arg, keyword-only, raising constructors, custom __str__); "
                 "a registry subset; every instance goes through the three real paths and all eight tick kinds; one mutation "
                 "of each wire form. non-trivial = an instance that reached the real serializers; distinct by scenario content")
-    I = load_impl()
+    try:
+        I = load_impl()
+    except Exception as e:  # the anchored modules do not even import: nothing can be serialised
+        out.violations.append(Violation(f"C18/anchor_import_failed:{type(e).__name__}",
+                                        f"importing the event / tick / envelope modules raised {type(e).__name__}: {str(e)[:300]}",
+                                        {"kind": "import"}))
+        return out
     tr = Trace()
     cases: list[dict] = []
     if env.replay is not None:
